@@ -58,6 +58,13 @@ def scenarios(quick):
     big = ["compiler 0", "add 0 - " + yv.hx('rule many { strings: $a = "a" $b = /b[bc]/ condition: #a > 10 or $b } '
                                              'rule loops { condition: for all i in (0..700) : (for any j in (0..1) : (j == 1)) } '), "getrules 0 0", "cdestroy 0", "blob 5 " + yv.hx(b"a" * 12500 + b"bbbcbc" * 40)]
     add("scan:growth", big, ["scanner 0 0", "scan target=s0 via=mem ml=0 data=@5", "scan target=s0 via=mem ml=0 data=@5", "sdestroy 0"])
+    # more API groups: include callback (file name stack, nested lexer buffers), atom quality table, add from bytes / file, rules-level defines + scan from fd
+    incs = ["incclear", "incfile inc_a.yar " + yv.hx('include "inc_b.yar"\nrule ia { strings: $a = "ia" condition: $a }'), "incfile inc_b.yar " + yv.hx('rule ib { condition: true }')]
+    add("compile:include", incs, ["compiler 0 inc=1", "add 0 - " + yv.hx('include "inc_a.yar"\nrule top { condition: ia and ib }'), "getrules 0 0", "cdestroy 0", "rdestroy 0"])
+    add("compile:atom-table", [], ["compiler 0", "atomq 0 " + (b"abcd\0" + b"efgh\x05").hex() + " 1", "add 0 - " + yv.hx('rule q { strings: $a = "abcdefgh" $b = "xxabcdyy" condition: $a or $b }'),
+                                   "getrules 0 0", "cdestroy 0", "scan target=r0 via=mem data=" + yv.hx(b"..abcdefgh.."), "rdestroy 0"])
+    add("compile:bytes-file", [], ["compiler 0", "add 0 - " + yv.hx('rule b1 { strings: $a = "bytes" condition: $a }') + " mode=bytes", "add 0 n2 " + yv.hx('rule f1 { condition: filesize > 3 }') + " mode=file",
+                                   "getrules 0 0", "cdestroy 0", "rdestroy 0"])
     add("init-fini", [], ["fini", "init"])
     return S
 
